@@ -2,6 +2,7 @@
 from lib import cfg
 from rules import common, C08
 
+CRATES = ("agdb",)
 EXPLANATION = (
     "Static analysis: (R08c) properties die with their element (shared with C08: ids are reused, so a slot freed with "
     "values alive would leak them to the next element); (R09a) in SelectValuesQuery::process the NotFound error for a "
